@@ -7,6 +7,24 @@ ROOT = os.path.dirname(os.path.dirname(os.path.abspath(__file__)))
 
 # id -> (technique, level text, level note, design ref)
 CHECKS = {
+    "C01": (
+        "compiler-as-oracle layout monitor: offset_of!/executed addr_of on host + nightly windows-msvc layout dump vs declared addresses",
+        "Builds hundreds (quick) to thousands (thorough) of generated accepted multi-module programs plus an exhaustive small space with the real pyxis, compiles the emitted structs with the real compiler (host at width 8; rustc_dump_layout for i686/x86_64-pc-windows-msvc at widths 4/8) and compares every named field's compiled offset with the declared address or the compiled end of the previous field. Exploration: held on the executions observed.",
+        "Trusted: rustc layout computation and offset_of!, the nightly layout dump, syn as reader of emitted text. No number computed by pyxis is trusted.",
+        "DESIGN.md §6 C01",
+    ),
+    "C02": (
+        "compiler-as-oracle size/alignment monitor: registry vs size_of/align_of (host + windows-msvc dump) vs declared attributes vs emitted size-check literal",
+        "Same generated workload as C01; for every emitted struct, enum and vftable struct the resolved (size, alignment) read from the public registry, the declared #[size]/#[align]/#[packed] and the literal of the emitted size check are compared with what the real compiler computes on the host and for *-pc-windows-msvc at both widths. Exploration.",
+        "Trusted: rustc layout computation; nightly layout dump; that the msvc dump equals MSVC repr(C).",
+        "DESIGN.md §6 C02",
+    ),
+    "C03": (
+        "bounded-exhaustive + random differential monitor of build verdicts against a reference realisability predicate",
+        "Runs the real SemanticState on every description of several complete bounded spaces (millions of single-type descriptions: <=2 fields over a 10-type alphabet x address x size x align x packed x both widths; 3 fields and vftable variants over a reduced alphabet) and on random larger ones, and compares Ok/Err and the resolved size/alignment with an independent reference predicate. Exhaustive within the stated bounds, sampled beyond.",
+        "Trusted: refmodel::layout_type as restatement of the property (effective alignment without #[align] taken from the source's documented default rule).",
+        "DESIGN.md §6 C03",
+    ),
     "C18": (
         "generated-AST print/parse round-trip monitor + rejection monitor on deliberately broken texts",
         "Runs the real parser on tens of thousands (quick) to millions (thorough) of texts printed from randomly generated abstract modules covering the whole grammar, with randomised legal spellings, and compares the returned value with the generating AST; broken texts must be rejected with an in-range position. Exploration, not proof: holds on the executions observed.",
